@@ -26,6 +26,14 @@ def run(tier):
     for _ in range(700 if quick else 12000):
         n = rng.randint(1, 12)
         jobs.append(gen.enc("c128", onedim.U("".join(rng.choice(onedim.C128_ALPHA) for _ in range(n))), ()))
+    # long contents: the weighted sum grows with the square of the length (80 characters of value 90 give about 290 000)
+    for n in list(range(30, 81, 2 if quick else 1)):
+        for c in ("z", "9", None):
+            txt = c * n if c else "".join(rng.choice("abcdefghijklmnopqrstuvwxyz{|}~") for _ in range(n))
+            jobs.append(gen.enc("c128", onedim.U(txt), ()))
+    for n in (20, 40, 60, 80):
+        jobs.append(gen.enc("c39", onedim.U("%" * n), (1, 0)))
+        jobs.append(gen.enc("c39", onedim.U("".join(rng.choice(onedim.C39_BASIC) for _ in range(n))), (1, rng.randint(0, 1))))
     for _ in range(500 if quick else 8000):
         n = rng.randint(0, 10)
         full = rng.randint(0, 1)
